@@ -2,6 +2,7 @@ package gen
 
 import (
 	"encoding/json"
+	"reflect"
 	"sort"
 )
 
@@ -109,44 +110,70 @@ func Docs(s DocSpec) []interface{} {
 }
 
 // Clone deep-copies a decoded-JSON-like value (maps and slices are copied, leaves shared).
+// Sharing is preserved: a map or slice referenced from several places of the original is
+// copied once and referenced from the same places of the copy.
 func Clone(v interface{}) interface{} {
-	switch t := v.(type) {
-	case map[string]interface{}:
-		m := make(map[string]interface{}, len(t))
-		for k, x := range t {
-			m[k] = Clone(x)
-		}
-		return m
-	case []interface{}:
-		a := make([]interface{}, len(t))
-		for i, x := range t {
-			a[i] = Clone(x)
-		}
-		return a
-	}
-	return v
+	return cloneWith(v, func(x interface{}) interface{} { return x })
 }
 
-// ToNumber deep-copies v replacing every float64 by the json.Number with Go's shortest spelling.
+// ToNumber deep-copies v replacing every float64 by the json.Number with Go's shortest
+// spelling (sharing preserved).
 func ToNumber(v interface{}) interface{} {
-	switch t := v.(type) {
-	case map[string]interface{}:
-		m := make(map[string]interface{}, len(t))
-		for k, x := range t {
-			m[k] = ToNumber(x)
+	return cloneWith(v, func(x interface{}) interface{} {
+		if f, ok := x.(float64); ok {
+			b, _ := json.Marshal(f)
+			return json.Number(string(b))
 		}
-		return m
-	case []interface{}:
-		a := make([]interface{}, len(t))
-		for i, x := range t {
-			a[i] = ToNumber(x)
+		return x
+	})
+}
+
+type sliceKey struct {
+	p uintptr
+	n int
+}
+
+func cloneWith(v interface{}, leaf func(interface{}) interface{}) interface{} {
+	maps := map[uintptr]map[string]interface{}{}
+	slices := map[sliceKey][]interface{}{}
+	var rec func(v interface{}) interface{}
+	rec = func(v interface{}) interface{} {
+		switch t := v.(type) {
+		case map[string]interface{}:
+			if t == nil {
+				return t
+			}
+			p := reflect.ValueOf(t).Pointer()
+			if c, ok := maps[p]; ok {
+				return c
+			}
+			m := make(map[string]interface{}, len(t))
+			maps[p] = m
+			for k, x := range t {
+				m[k] = rec(x)
+			}
+			return m
+		case []interface{}:
+			if t == nil {
+				return t
+			}
+			if len(t) > 0 {
+				k := sliceKey{reflect.ValueOf(t).Pointer(), len(t)}
+				if c, ok := slices[k]; ok {
+					return c
+				}
+				a := make([]interface{}, len(t))
+				slices[k] = a
+				for i, x := range t {
+					a[i] = rec(x)
+				}
+				return a
+			}
+			return make([]interface{}, 0)
 		}
-		return a
-	case float64:
-		b, _ := json.Marshal(t)
-		return json.Number(string(b))
+		return leaf(v)
 	}
-	return v
+	return rec(v)
 }
 
 // SortedKeys returns the keys of m in ascending byte order.
@@ -228,6 +255,16 @@ func WideDocs() []interface{} {
 		map[string]interface{}{"a": []interface{}{map[string]interface{}{"a": leaf(), "b": leaf()}, map[string]interface{}{"a": leaf(), "b": leaf()}}, "b": leaf()},
 		[]interface{}{map[string]interface{}{"a": leaf(), "b": leaf()}, map[string]interface{}{"a": leaf(), "b": leaf()}, map[string]interface{}{"b": leaf()}},
 		map[string]interface{}{"a": map[string]interface{}{"a": leaf(), "b": leaf(), "c": leaf()}, "b": map[string]interface{}{"a": leaf(), "b": leaf(), "c": leaf()}, "c": map[string]interface{}{"a": leaf(), "b": leaf()}},
+	)
+	// documents built in Go in which one container is referenced from several places (a decoder
+	// never produces these; the properties speak about values, so sharing must not matter)
+	sharedMap := map[string]interface{}{"a": 1.0, "b": 2.0}
+	sharedArr := []interface{}{1.0, map[string]interface{}{"a": 2.0}}
+	out = append(out,
+		map[string]interface{}{"a": sharedMap, "b": sharedMap},
+		[]interface{}{sharedMap, sharedMap, map[string]interface{}{"a": sharedMap}},
+		map[string]interface{}{"a": sharedArr, "b": []interface{}{sharedArr}},
+		[]interface{}{sharedArr, sharedArr},
 	)
 	return out
 }
